@@ -191,3 +191,53 @@ theorem readAll_basicSlice (st : St) (a v : Arr) (sl : PySlice) (h : basicSlice 
   omega
 
 end Store
+
+namespace Store
+
+/-! ### several inputs -/
+
+/-- `st'` was reached from `st` by allocations only: every buffer that existed is untouched -/
+def Extends (st st' : St) : Prop := st.next ≤ st'.next ∧ ∀ b, b < st.next → ∀ k, st'.mem b k = st.mem b k
+
+theorem Extends.refl (st : St) : Extends st st := ⟨Nat.le_refl _, fun _ _ _ => rfl⟩
+
+theorem Extends.trans {a b c : St} (h1 : Extends a b) (h2 : Extends b c) : Extends a c :=
+  ⟨Nat.le_trans h1.1 h2.1, fun x hx k => by rw [h2.2 x (Nat.lt_of_lt_of_le hx h1.1) k, h1.2 x hx k]⟩
+
+theorem extends_alloc (st : St) (vals : List Rat) : Extends st (alloc st vals).1 := by
+  refine ⟨Nat.le_succ _, ?_⟩
+  intro b hb k
+  have : b ≠ st.next := Nat.ne_of_lt hb
+  simp [alloc, this]
+
+theorem Extends.readAll {st st' : St} (h : Extends st st') (b : Arr) (hb : b.base < st.next) : readAll st' b = readAll st b := by
+  simp only [Store.readAll]
+  apply List.map_congr_left
+  intro j _
+  exact h.2 b.base hb _
+
+theorem extends_coerceInput (st : St) (inp : Arr) (f : Rat → Rat) (v o : Bool) : Extends st (coerceInput st inp f v o).1 := by
+  unfold coerceInput
+  cases v <;> cases o <;> simp only [copyArr, Bool.false_eq_true, if_false, if_true]
+  · exact Extends.refl st
+  · exact extends_alloc st _
+  · exact extends_alloc st _
+  · exact (extends_alloc st _).trans (extends_alloc _ _)
+
+theorem extends_coerceAll (st : St) (l : List (Arr × (Rat → Rat) × Bool × Bool)) : Extends st (coerceAll st l).1 := by
+  induction l generalizing st with
+  | nil => exact Extends.refl st
+  | cons x t ih =>
+    obtain ⟨a, f, v, o⟩ := x
+    exact (extends_coerceInput st a f v o).trans (ih _)
+
+/-- building one sample set from several leaves **every** pre-existing buffer — the first input, all further
+    inputs, anything else — bit for bit unchanged, and the result lives in a buffer of its own -/
+theorem concatInputs_spec (st : St) (first : Arr) (others : List (Arr × (Rat → Rat) × Bool × Bool)) :
+    (∀ b : Arr, b.base < st.next → readAll (concatInputs st first others).1 b = readAll st b) ∧
+    st.next ≤ (concatInputs st first others).2.base := by
+  have h1 := extends_coerceAll st others
+  have h2 := extends_alloc (coerceAll st others).1 ((first :: (coerceAll st others).2).flatMap (readAll (coerceAll st others).1))
+  exact ⟨fun b hb => (h1.trans h2).readAll b hb, h1.1⟩
+
+end Store
